@@ -165,3 +165,15 @@ Definition spec_with (src : text) (orc0 : oracle) (stdin0 : text) : text :=
 Definition spec_obs (src : text) : text := spec_with src no_oracle [].
 (* implementation model | reference semantics *)
 Definition both_obs (src : text) : text := run_obs src ++ [124] ++ spec_obs src.
+
+(** * CLI channel K5 *)
+From Aplang Require Import Driver.
+
+Definition cli_obs (mode : N) (dbg : N) (chk : bool) (src stdin0 : text) : text :=
+  let name : text := string_bytes "main.ap" in
+  let s := match mode with 0 => SrcFile name | 1 => SrcEval src | _ => SrcStdin end in
+  let d := match dbg with 0 => DNone | 1 => DTime | 2 => DAll | 3 => DLexer | 4 => DParser | _ => DInterpreter end in
+  let files := match mode with 0 => [(name, src)] | _ => [] end in
+  let input := match mode with 0 | 1 => stdin0 | _ => src end in
+  let r := cli_run (mkConfig s d chk) files input no_oracle in
+  sb "S" ++ dec (status r) ++ sp ++ hex_or_dash (stdout_ r) ++ sb " E" ++ (if stderr_nonempty r then [49] else [48]).
